@@ -149,6 +149,8 @@ def main(tier):
             chk.violation("%s must be rejected with a diagnostic in bounded time, observed: %s | document:\n%s" % (
                 nm, rel.describe(o), text[-700:]),
                 {"kind": "macro_reject", "variant": nm, "doc": m["doc"], "file": text, "observed": o, "signature": sig}, sig)
+    import macrograph
+    macrograph.run(chk, tier, "C07")
     chk.extra["macro_forms_accepted"] = accepted
     chk.extra["macro_forms_rejected_by_kind"] = rejected_forms
     if meta:
@@ -172,6 +174,10 @@ def replay(path):
         a, b = obs["a"], obs["b"]
         if b["outcome"] in ("panic", "fatal", "timeout") or (b["outcome"] == "ok" and (a["outcome"] != "ok" or json.loads(a["json"]) != json.loads(b["json"]))):
             chk.violation("macro form %s vs inlined %s" % (rel.describe(b), rel.describe(a)), rp, rp.get("signature"))
+    elif rp["kind"] == "paste_graph":
+        o = harness("run", [rel.case("a", rp["file"], timeout=20000)])["a"]
+        if o["outcome"] in ("panic", "fatal", "timeout") or (rp["expected"].startswith("rejected") and o["outcome"] != "error"):
+            chk.violation("reproduced: expected %s, observed %s" % (rp["expected"], rel.describe(o)), rp, rp.get("signature"))
     else:
         obs = harness("run", [rel.case("a", rp["file"], timeout=15000)])
         if obs["a"]["outcome"] != "error":
